@@ -296,7 +296,9 @@ impl<L: Language> Matcher<L> for Pattern<L> {
   fn get_match_len<D: Doc<Lang = L>>(&self, node: Node<D>) -> Option<usize> {
     let start = node.range().start;
     let end = match_end_non_recursive(self, node)?;
-    Some(end - start)
+    // if every pattern token was skipped, no candidate node was aligned and
+    // there is no prefix to report: the match is the whole node
+    end.checked_sub(start).filter(|len| *len > 0)
   }
 }
 impl std::fmt::Debug for PatternNode {
